@@ -27,6 +27,7 @@ public class FP {
   public static Value FSub(Value a, Value c) { return v(d(a) - d(c)); }
   public static Value FMul(Value a, Value c) { return v(d(a) * d(c)); }
   public static Value FDiv(Value a, Value c) { return v(d(a) / d(c)); }
+  public static Value FFma(Value a, Value c, Value e) { return v(Math.fma(d(a), d(c), d(e))); }
   public static Value FNeg(Value a) { return v(-d(a)); }
   public static Value FAbs(Value a) { return v(Math.abs(d(a))); }
   public static Value FPow(Value a, Value c) { return v(Math.pow(d(a), d(c))); }
